@@ -219,8 +219,12 @@ Section Ecdsa.
     kb <- int_to_be_fixed ecdsa_priv_len ((be_to_int (left_half I) + be_to_int k) mod n) ;;
     Ok (kb, right_half I).
 
-  (* CkdPub: P + iL*G with whatever the back-end makes of iL >= n / iL = 0 / a sum at infinity;
-     on the algebraic level (ecdsa back-end, P-256) the scalar is reduced silently *)
+  (* CkdPub: P + iL*G with whatever the back-end makes of iL >= n / iL = 0 / a sum at infinity.
+     Observed on the pinned tree (forced HMAC outputs): coincurve (secp256k1) raises a bare ValueError for
+     iL = 0, iL >= n and for a sum at infinity; python-ecdsa (P-256) reduces iL silently and ends in a
+     TypeError when the sum is the point at infinity.  CkdPriv reduces (iL + k) mod n silently for iL >= n and a
+     zero child makes the key constructor raise Bip32KeyError.  This definition is the algebraic reading
+     (total scalar multiplication); harness/deriv_ref.py: child_noretry has the back-end detail. *)
   Definition ckd_pub_ecdsa_current (fuel : nat) (K : pt G) (c : list N) (i : N) : res (pt G * list N) :=
     ib <- ser32 i ;;
     let I := hmac512 c (ser_c K ++ ib) in
